@@ -1132,6 +1132,44 @@ pub fn lane_hard_failures(seed: u64) -> Vec<Scenario> {
             }
         }
     }
+    // the shell of ONE test case cannot be started - also when that test case is a detached one,
+    // whose start nobody waits for: the run ends with 1, nothing is passed over in silence
+    for detached in [false, true] {
+        for pos in 0..3usize {
+            for errno in [2, 11, 13] {
+                for others in ["pass", "fail"] {
+                    let mut sim = base_sim(g.rng.next_u64());
+                    let mut tests = vec![];
+                    for k in 0..3 {
+                        let plan = if k == pos && detached {
+                            Plan::new(Fate::Detached)
+                        } else if k != pos && others == "fail" && k == 2 - (pos % 2) * 2 {
+                            Plan::new(Fate::WrongOutput)
+                        } else {
+                            Plan::new(Fate::Pass)
+                        };
+                        tests.push(g.test(&plan, &mut sim.programs));
+                    }
+                    sim.faults.push(Fault::Spawn { nth: pos as u32, errno });
+                    let other = doc("h/other.md", Format::Md, vec![g.test(&Plan::new(Fate::Pass), &mut sim.programs)]);
+                    let mut sc = Scenario {
+                        lane: format!("hard/spawn-fails/{}/pos{}/errno{}/{}", if detached { "detached" } else { "plain" }, pos, errno, others),
+                        tier: Tier::Cli,
+                        script_mode: false,
+                        docs: vec![doc("h/start.md", Format::Md, tests), other],
+                        cli: Cli::default(),
+                        sim,
+                        pretty: false,
+                        check: vec!["C20".into(), "C18".into(), "C05".into()],
+                        partner: None,
+                        turns: None,
+                    };
+                    fill_expectations(&mut sc, &mut g);
+                    out.push(sc);
+                }
+            }
+        }
+    }
     out
 }
 
@@ -1399,7 +1437,7 @@ pub fn lane_cram_sizes(seed: u64) -> Vec<Scenario> {
     let mut out = vec![];
     let mut g = G::new(seed ^ 0xc2a3);
     for (n, compact) in [(1usize, false), (2, false), (9, false), (10, false), (11, false), (13, false), (2, true), (4, true), (10, true), (13, true)] {
-        for special in ["all-pass", "fail-last", "fail-first", "code-mid", "code-late", "skip-last", "exit-mid"] {
+        for special in ["all-pass", "fail-last", "fail-first", "code-mid", "code-late", "skip-last", "exit-mid", "marker-like", "marker-like-prefix"] {
             let mut sim = base_sim(g.rng.next_u64());
             let mut tests = vec![];
             for k in 0..n {
@@ -1418,7 +1456,14 @@ pub fn lane_cram_sizes(seed: u64) -> Vec<Scenario> {
                         p
                     }
                 };
-                tests.push(g.test(&plan, &mut sim.programs));
+                let t = g.test(&plan, &mut sim.programs);
+                if special.starts_with("marker-like") && k == n / 2 {
+                    // the last line of the output looks like one of scrut's dividers and has no
+                    // line break: scrut's own divider follows on the same line
+                    let text = if special == "marker-like" { "see ~~~~~~~~EXECDIVIDER::x::0::0" } else { "marker ~~~~~~~~EXECDIVIDER::" };
+                    sim.programs.insert(t.nonce.clone(), vec![Op::Out { fd: 1, data: text.into() }, Op::Status { code: if k % 2 == 0 { 0 } else { 5 } }]);
+                }
+                tests.push(t);
             }
             let mut d = doc(&format!("sizes/n{}.t", n), Format::Cram, tests);
             // every other one as ONE block: a title, then `$` lines only (the last command of the
